@@ -22,7 +22,7 @@ RULE = ("E1: (a) do(): every DAG on <=3 nodes (4 in thorough) x every do-set x i
         "get_all_frontdoor_adjustment_sets under all relabelings, vs explicit path enumeration. non-trivial = distinct "
         "(graph, X, Y) with >=1 back-door path; distinct (model, do, query) where P(y|do(x)) != P(y|x)")
 BOUNDS = {"quick": "(a) n<=3; (b) all 25 DAGs n=3 + 31 iso classes n=4 (|do|=1) ; (c) all DAGs n<=4 (543) under identity + 2 relabelings (rotating with VERIF_SEED) and the 302 isomorphism classes of 5-node DAGs under 2 relabelings",
-          "thorough": "(a) n<=4 and the 302 classes n=5, (b) all DAGs n=4 (|do|<=2) and the 302 classes n=5 (|do|=1), (c) all 24 relabelings n<=4; 5-node classes under 12 relabelings and all 29281 labelled 5-node DAGs under the identity"}
+          "thorough": "(a) n<=4 and the 302 classes n=5, (b) all DAGs n=4 (|do|<=2) and the 302 classes n=5 (|do|=1), (c) all 24 relabelings n<=4; 5-node classes under 12 relabelings and all 29281 labelled 5-node DAGs under the identity; criteria on all 32768 order-respecting 6-node DAGs"}
 EXHAUSTIVE = {"quick": True, "thorough": True}
 ASSUMPTIONS = ["strictly positive CPDs (the adjustment formula conditions on (x,z))", "query sets disjoint from the do-set and its parents (the engine refuses others)",
                "front-door verdicts are compared only when a directed path X->..->Y exists"]
@@ -58,6 +58,9 @@ def groups(tier, seed):
         n5 = len(all_dags(5))
         for i in range(0, n5, 60):
             out.append({"part": "crit", "n": 5, "lo": i, "hi": min(i + 60, n5), "rot": seed, "identity": True})
+        # criteria on six nodes: every DAG whose edges respect 0<1<..<5 (2^15 edge sets)
+        for i in range(0, 1 << 15, 32):
+            out.append({"part": "crit6", "lo": i, "hi": i + 32})
     return out
 
 
@@ -69,6 +72,10 @@ def run_group(g, tier):
             _do(st, g["n"], dags[i])
     elif g["part"] == "query":
         _query(st, g)
+    elif g["part"] == "crit6":
+        p6 = list(combinations(range(6), 2))
+        for code in range(g["lo"], g["hi"]):
+            _crit(st, 6, [p for i, p in enumerate(p6) if code >> i & 1], list(range(6)))
     elif g["part"] == "do5":
         for d in g["dags"]:
             _do(st, 5, [tuple(e) for e in d])
